@@ -64,7 +64,7 @@ def Code.nodeRefs : Code → List Nat
   | .simple _ _ _ push | .cmp _ _ _ _ push | .unitVariant _ _ _ push | .range _ _ _ push
   | .regex _ _ _ push | .like _ _ _ push | .closure _ _ _ push | .string _ _ _ _ push
   | .mapLen _ _ _ push => [push.node]
-  | .enumTuple _ _ _ _ body push | .structNamed _ _ _ _ _ body push | .slice _ _ body push =>
+  | .enumTuple _ _ _ _ body push | .structNamed _ _ _ _ _ _ body push | .slice _ _ body push =>
     push.node :: body.nodeRefs
   | .tuple _ _ body => body.nodeRefs
   | .mapGet _ _ _ body push => push.node :: body.nodeRefs
